@@ -875,9 +875,9 @@ Proof.
   destruct (node_add eps ni (set_status st Binding)) as [[ni' t2]|err]; [destruct ok|]; repeat split; reflexivity.
 Qed.
 
-(* Theorem (C08_bind_batch_is_fold): a batch of bind contexts leaves, in everything but the
-   order of the resync queue, the state the single-context step leaves when folded over the
-   batch, each context with its own outcome; and the per-context results are those of the fold *)
+(* Theorem (C08_bind_batch_is_fold): a batch of bind contexts leaves, in every field EXCEPT the
+   resync queue (about which this statement says nothing: see bind_batch_errq below), the state
+   the single-context step leaves when folded over the batch, each context with its own outcome *)
 Theorem bind_batch_is_fold l : forall c,
   same_but_errq (fst (bind_batch eps c l))
                 (fold_left (fun c x => let '(j, t, n, f) := x in fst (bind_task eps c j t n (f =? 1))) l c).
@@ -897,6 +897,309 @@ Proof.
   specialize (G l c c [] ltac:(repeat split; reflexivity)).
   destruct (fold_left _ l (c, [])) as [c1 rs]. cbn [fst snd] in *.
   destruct G as (A1 & A2 & A3 & A4 & A5 & A6 & A7 & A8 & A9). repeat split; simpl; assumption.
+Qed.
+
+
+(* ----- the resync queue of a batch (third audit, E22) ----- *)
+
+Notation bctx := (positive * positive * positive * Z)%type.
+Definition bkey (xr : bctx * opres) : positive * positive := let '(j, t, _, _) := fst xr in (j, t).
+Definition bfault (xr : bctx * opres) : Z := let '(_, _, _, f) := fst xr in f.
+
+(* the walk over a batch, each context with the API outcome [okf] assigns to its fault code *)
+Definition bfold (okf : Z -> bool) (l : list bctx) (acc : cache * list opres) : cache * list opres :=
+  fold_left (fun (acc : cache * list opres) x =>
+               let '(j, t, n, f) := x in
+               let '(c', r) := bind_task eps (fst acc) j t n (okf f) in (c', snd acc ++ [r])) l acc.
+
+(* the independent reference: the batch as a history of single-context bind EVENTS of [run] *)
+Definition batch_events (l : list bctx) : list event :=
+  map (fun x : bctx => let '(j, t, n, f) := x in EBind j t n (f =? 1)) l.
+
+Lemma bfold_is_run l : forall c rs, fst (bfold (fun f => f =? 1) l (c, rs)) = run eps c (batch_events l).
+Proof.
+  induction l as [|[[[j t] n] f] l IH]; intros c rs; [reflexivity|].
+  unfold bfold in *. simpl. destruct (bind_task eps c j t n (f =? 1)) as [c1 r1] eqn:E. cbn [fst snd].
+  rewrite IH. unfold run. simpl. reflexivity.
+Qed.
+
+Lemma bind_task_errq c j t n ok :
+  c_errq (fst (bind_task eps c j t n ok)) =
+  match snd (bind_task eps c j t n ok) with
+  | RDone => if ok then c_errq c else enq (c_errq c) (j, t)
+  | _ => c_errq c
+  end.
+Proof.
+  unfold bind_task.
+  destruct (c_jobs c !! j) as [cj|]; [|reflexivity].
+  destruct (stored_task c (Some j) t) as [st|]; [|reflexivity].
+  destruct (c_nodes c !! n) as [ni|]; [|reflexivity].
+  destruct (n_has_node ni); cbn [negb]; [|reflexivity].
+  unfold job_set_status. cbn [fst snd].
+  destruct (node_add eps ni (set_status st Binding)) as [[ni' t2]|err]; [destruct ok|]; reflexivity.
+Qed.
+
+(* the queue after the walk: what was queued before, and the key of every context the cache
+   ACCEPTED whose API side failed *)
+Lemma bfold_spec okf l : forall a rs,
+  exists rl, snd (bfold okf l (a, rs)) = rs ++ rl /\ length rl = length l /\
+    forall k, k ∈ c_errq (fst (bfold okf l (a, rs))) <->
+      k ∈ c_errq a \/ exists xr, xr ∈ zip l rl /\ snd xr = RDone /\ okf (bfault xr) = false /\ bkey xr = k.
+Proof.
+  induction l as [|[[[j t] n] f] l IH]; intros a rs.
+  - exists []. rewrite app_nil_r. split; [reflexivity|]. split; [reflexivity|]. intros k. simpl. split; [auto|].
+    intros [H|(xr & H & _)]; [exact H|inversion H].
+  - unfold bfold. simpl. pose proof (bind_task_errq a j t n (okf f)) as Hq.
+    destruct (bind_task eps a j t n (okf f)) as [a1 r1] eqn:E. cbn [fst snd] in *.
+    destruct (IH a1 (rs ++ [r1])) as (rl & H1 & H2 & H3). unfold bfold in H1, H3.
+    exists (r1 :: rl). split; [rewrite H1, <- app_assoc; reflexivity|]. split; [simpl; congruence|].
+    intros k. rewrite H3. simpl. setoid_rewrite elem_of_cons. rewrite Hq. split.
+    + intros [Hk|(xr & Hin & Hx)].
+      * destruct r1; auto. destruct (okf f) eqn:Ef; auto. apply elem_of_enq in Hk. destruct Hk as [Hk| ->]; auto.
+        right. exists ((j, t, n, f), RDone). split; [left; reflexivity|]. repeat split; auto.
+      * right. exists xr. split; [right; exact Hin|exact Hx].
+    + intros [Hk|(xr & [->|Hin] & Hd & Hf & Hk)].
+      * left. destruct r1; auto. destruct (okf f); auto. apply elem_of_enq; auto.
+      * left. cbn in Hd, Hf, Hk. subst r1. rewrite Hf. apply elem_of_enq; auto.
+      * right. exists xr. auto.
+Qed.
+
+Lemma enq_fold_members {X} (g : X -> positive * positive) xs : forall q k,
+  k ∈ fold_left (fun q x => enq q (g x)) xs q <-> k ∈ q \/ exists x, x ∈ xs /\ g x = k.
+Proof.
+  induction xs as [|x xs IH]; intros q k; simpl.
+  - split; [auto|]. intros [H|(x & H & _)]; [exact H|inversion H].
+  - rewrite IH, elem_of_enq. setoid_rewrite elem_of_cons. split.
+    + intros [[H| ->]|(y & H & E)]; [auto|right; exists x; auto|right; exists y; auto].
+    + intros [H|(y & [->|H] & E)]; [auto|auto|right; exists y; auto].
+Qed.
+
+Lemma bfold_indep okf1 okf2 l : forall a b rs, same_but_errq a b ->
+  same_but_errq (fst (bfold okf1 l (a, rs))) (fst (bfold okf2 l (b, rs))) /\
+  snd (bfold okf1 l (a, rs)) = snd (bfold okf2 l (b, rs)).
+Proof.
+  induction l as [|[[[j t] n] f] l IH]; intros a b rs Hab; [split; [exact Hab|reflexivity]|].
+  unfold bfold. simpl.
+  destruct (bind_task eps a j t n (okf1 f)) as [a1 r1] eqn:Ea.
+  destruct (bind_task eps b j t n (okf2 f)) as [b1 r2] eqn:Eb. cbn [fst snd].
+  assert (H : same_but_errq a1 b1 /\ r1 = r2).
+  { pose proof (cache_with_errq b a ltac:(destruct Hab as (A1 & A2 & A3 & A4 & A5 & A6 & A7 & A8 & A9); repeat split; congruence)) as Ha.
+    pose proof (bind_task_errq_indep b (c_errq a) j t n (okf1 f)) as [P1 P2]. rewrite <- Ha, Ea in P1, P2.
+    pose proof (bind_task_errq_indep b (c_errq b) j t n (okf2 f)) as [Q1 Q2].
+    replace (with_errq b (c_errq b)) with b in Q1, Q2 by (destruct b; reflexivity). rewrite Eb in Q1, Q2.
+    cbn [fst snd] in *. split; [|congruence].
+    destruct P1 as (A1 & A2 & A3 & A4 & A5 & A6 & A7 & A8 & A9). destruct Q1 as (B1 & B2 & B3 & B4 & B5 & B6 & B7 & B8 & B9).
+    repeat split; congruence. }
+  destruct H as [H ->]. apply (IH a1 b1 (rs ++ [r2]) H).
+Qed.
+
+Lemma bind_batch_unfold c l :
+  bind_batch eps c l =
+  let cr := bfold (fun _ => true) l (c, []) in
+  let acc := List.filter (fun xr : bctx * opres => match snd xr with RDone => true | _ => false end) (zip l (snd cr)) in
+  (with_errq (fst cr)
+     (fold_left (fun q xr => enq q (bkey xr))
+        (List.filter (fun xr => (bfault xr =? 2) || (bfault xr =? 3)) acc ++
+         List.filter (fun xr => (bfault xr =? 0) || (bfault xr =? 4)) acc) (c_errq (fst cr))), snd cr).
+Proof.
+  unfold bind_batch, bfold. cbv beta zeta.
+  destruct (fold_left _ l (c, [])) as [c1 rs]. reflexivity.
+Qed.
+
+(* fault codes as the decoder admits them *)
+Definition faults_ok (l : list bctx) : Prop := Forall (fun x : bctx => 0 <= snd x <= 4) l.
+
+(* Theorem (C08_bind_batch_errq): a batch leaves, in every field but the resync queue, the state
+   of the HISTORY of single-context bind events, the same per-context results, and a resync
+   queue with the same MEMBERS: what was queued before plus the key of every accepted context
+   whose pre-binder or binder failed -- every one of them, wherever it stands in the batch *)
+Theorem bind_batch_errq l c : faults_ok l ->
+  let b := bind_batch eps c l in
+  let f := bfold (fun f => f =? 1) l (c, []) in
+  fst f = run eps c (batch_events l) /\
+  same_but_errq (fst b) (fst f) /\ snd b = snd f /\
+  (forall k, k ∈ c_errq (fst b) <-> k ∈ c_errq (fst f)) /\
+  (forall k, k ∈ c_errq (fst b) <->
+     k ∈ c_errq c \/ exists xr, xr ∈ zip l (snd b) /\ snd xr = RDone /\ bfault xr <> 1 /\ bkey xr = k).
+Proof.
+  intros Hf b f. split; [apply bfold_is_run|].
+  destruct (bfold_indep (fun _ => true) (fun f => f =? 1) l c c [] ltac:(repeat split; reflexivity)) as [S1 S2].
+  destruct (bfold_spec (fun _ => true) l c []) as (rl1 & R1 & L1 & M1).
+  destruct (bfold_spec (fun f => f =? 1) l c []) as (rl2 & R2 & L2 & M2).
+  unfold b, f. rewrite bind_batch_unfold. cbv zeta. cbn [fst snd].
+  split; [|split; [exact S2|]].
+  { destruct S1 as (A1 & A2 & A3 & A4 & A5 & A6 & A7 & A8 & A9). repeat split; assumption. }
+  assert (E : forall k, k ∈ c_errq (with_errq (fst (bfold (fun _ => true) l (c, [])))
+      (fold_left (fun q xr => enq q (bkey xr))
+        (List.filter (fun xr => (bfault xr =? 2) || (bfault xr =? 3))
+           (List.filter (fun xr : bctx * opres => match snd xr with RDone => true | _ => false end) (zip l (snd (bfold (fun _ => true) l (c, []))))) ++
+         List.filter (fun xr => (bfault xr =? 0) || (bfault xr =? 4))
+           (List.filter (fun xr : bctx * opres => match snd xr with RDone => true | _ => false end) (zip l (snd (bfold (fun _ => true) l (c, []))))))
+        (c_errq (fst (bfold (fun _ => true) l (c, [])))))) <->
+     k ∈ c_errq c \/ exists xr, xr ∈ zip l (snd (bfold (fun _ => true) l (c, []))) /\ snd xr = RDone /\ bfault xr <> 1 /\ bkey xr = k).
+  { intros k. change (c_errq (with_errq ?x ?q)) with q. rewrite enq_fold_members, M1.
+    assert (Hrange : forall xr, xr ∈ zip l (snd (bfold (fun _ => true) l (c, []))) -> 0 <= bfault xr <= 4).
+    { intros [x r] Hin. apply elem_of_zip_l in Hin. unfold faults_ok in Hf. rewrite Forall_forall in Hf.
+      specialize (Hf x Hin). unfold bfault. cbn [fst]. destruct x as [[[? ?] ?] ff]. exact Hf. }
+    split.
+    - intros [[H|(xr & _ & _ & Hx & _)]|(xr & Hin & Hk)]; [left; exact H|discriminate|].
+      right. exists xr. apply elem_of_app in Hin.
+      assert (Hin' : xr ∈ zip l (snd (bfold (fun _ => true) l (c, []))) /\ snd xr = RDone /\ bfault xr <> 1).
+      { destruct Hin as [Hin|Hin]; apply elem_of_list_In, filter_In in Hin; destruct Hin as [Hin Hb];
+          apply filter_In in Hin; destruct Hin as [Hin Hd]; apply elem_of_list_In in Hin;
+          (split; [exact Hin|]); (split; [destruct (snd xr); try discriminate; reflexivity|]); lia. }
+      tauto.
+    - intros [H|(xr & Hin & Hd & Hne & Hk)]; [left; left; exact H|].
+      right. exists xr. split; [|exact Hk]. pose proof (Hrange xr Hin) as Hr.
+      assert (Hacc : In xr (List.filter (fun xr : bctx * opres => match snd xr with RDone => true | _ => false end) (zip l (snd (bfold (fun _ => true) l (c, [])))))).
+      { apply filter_In. split; [apply elem_of_list_In; exact Hin|rewrite Hd; reflexivity]. }
+      apply elem_of_app.
+      destruct (decide (bfault xr = 2 \/ bfault xr = 3)) as [H23|H23].
+      + left. apply elem_of_list_In, filter_In. split; [exact Hacc|]. lia.
+      + right. apply elem_of_list_In, filter_In. split; [exact Hacc|]. lia. }
+  split; [|exact E].
+  simpl in R2. rewrite <- R2 in M2. intros k. rewrite E, M2. rewrite <- S2.
+  split; intros [H|(xr & Hin & Hd & Hne & Hk)]; auto; right; exists xr; repeat split; auto.
+  - apply Z.eqb_neq. exact Hne.
+  - apply Z.eqb_neq. exact Hne.
+Qed.
+
+(* ----- histories WITH batches ----- *)
+
+(* same fields, same members of the resync queue *)
+Definition errq_equiv (a b : cache) : Prop := same_but_errq a b /\ forall k, k ∈ c_errq a <-> k ∈ c_errq b.
+
+(* nothing the theorems below speak about depends on the ORDER of the resync queue *)
+Lemma errq_equiv_keeps a b A :
+  errq_equiv a b -> Inv2 eps b -> QueuedA eps A b -> Cover b -> Inv2 eps a /\ QueuedA eps A a /\ Cover a.
+Proof.
+  intros [(A1 & A2 & A3 & A4 & A5 & A6 & A7 & A8 & A9) M] I HQ HC. split; [apply (inv2_frame eps b a); auto|]. split.
+  - intros i t Ht. rewrite A3 in Ht. destruct (HQ i t Ht) as [(p & H1 & H2)|[H|H]].
+    + left. exists p. rewrite A1. auto.
+    + right. left. apply M. exact H.
+    + right. right. exact H.
+  - intros i p Hp. rewrite A1 in Hp. rewrite A2, A3. exact (HC i p Hp).
+Qed.
+
+Lemma batch_events_ok l : forall c, hist_ok4 eps c (batch_events l).
+Proof. induction l as [|[[[j t] n] f] l IH]; intros c; simpl; [exact I|]. split; [exact I|apply IH]. Qed.
+
+(* Theorem (C08_bind_batch_keeps): a batch keeps the invariant, "every divergent task is queued
+   or awaits its notification" and the coverage of the informer store, with the awaited set of
+   the corresponding history of single binds *)
+Theorem bind_batch_keeps l c A : faults_ok l ->
+  Inv2 eps c -> QueuedA eps A c -> Cover c ->
+  let c' := fst (bind_batch eps c l) in
+  Inv2 eps c' /\ QueuedA eps (await_run eps c A (batch_events l)) c' /\ Cover c'.
+Proof.
+  intros Hf I HQ HC c'.
+  destruct (bind_batch_errq l c Hf) as (E1 & E2 & _ & E4 & _). cbv zeta in *.
+  destruct (history_queuedA eps (batch_events l) c A I HQ HC (batch_events_ok l c)) as (I1 & Q1 & C1).
+  rewrite <- E1 in I1, Q1, C1. apply (errq_equiv_keeps _ _ _ (conj E2 E4)); assumption.
+Qed.
+
+Inductive bop := BEv (e : event) | BBatch (l : list bctx).
+Definition bstep (c : cache) (o : bop) : cache :=
+  match o with BEv e => handle eps c e | BBatch l => fst (bind_batch eps c l) end.
+Definition brun (c : cache) (h : list bop) : cache := fold_left bstep h c.
+Definition bstep_ok (c : cache) (o : bop) : Prop :=
+  match o with BEv e => step_ok4 c e | BBatch l => faults_ok l end.
+Fixpoint bhist_ok (c : cache) (h : list bop) : Prop :=
+  match h with [] => True | o :: r => bstep_ok c o /\ bhist_ok (bstep c o) r end.
+Definition bawait (c : cache) (A : gset positive) (o : bop) : gset positive :=
+  match o with BEv e => await eps c A e | BBatch l => await_run eps c A (batch_events l) end.
+Fixpoint bawait_run (c : cache) (A : gset positive) (h : list bop) : gset positive :=
+  match h with [] => A | o :: r => bawait_run (bstep c o) (bawait c A o) r end.
+
+Lemma bhistory_queuedA h : forall c A, Inv2 eps c -> QueuedA eps A c -> Cover c -> bhist_ok c h ->
+  Inv2 eps (brun c h) /\ QueuedA eps (bawait_run c A h) (brun c h) /\ Cover (brun c h).
+Proof.
+  induction h as [|o r IH]; intros c A I HP HC Hok; [auto|].
+  destruct Hok as [H1 H2]. simpl.
+  assert (S : Inv2 eps (bstep c o) /\ QueuedA eps (bawait c A o) (bstep c o) /\ Cover (bstep c o)).
+  { destruct o as [e|l]; simpl in *.
+    - exact (history_queuedA eps [e] c A I HP HC (conj H1 Logic.I)).
+    - exact (bind_batch_keeps l c A H1 I HP HC). }
+  destruct S as (I1 & Q1 & C1). apply IH; assumption.
+Qed.
+
+(* Theorem (C08_batch_failures_repaired): histories of informer events, single binds, evictions,
+   drains AND batches of bind contexts with any outcomes: after one more resync drain every held
+   task equals NewTaskInfo(its pod) or belongs to a successful bind / eviction whose notification
+   has not arrived; the invariant and the coverage hold *)
+Theorem batch_failures_repaired h :
+  bhist_ok empty_cache h ->
+  let c := drain_resync eps (brun empty_cache h) in
+  let A := bawait_run empty_cache ∅ h in
+  Inv2 eps c /\
+  (forall i t, c_heap c !! i = Some t -> synced_at eps c i t \/ i ∈ A) /\
+  (forall i p, c_store c !! i = Some p -> i ∈ c_gone c \/ is_Some (c_heap c !! i)).
+Proof.
+  intros Hok c A.
+  assert (HQ0 : QueuedA eps ∅ empty_cache) by (intros i t Ht; simpl in Ht; rewrite lookup_empty in Ht; discriminate).
+  assert (HC0 : Cover empty_cache) by (intros i p Hp; simpl in Hp; rewrite lookup_empty in Hp; discriminate).
+  destruct (bhistory_queuedA h empty_cache ∅ (inv2_empty eps) HQ0 HC0 Hok) as (I & HQ & HC).
+  fold A in HQ. unfold c. set (c1 := brun empty_cache h) in *.
+  destruct (drain_resync_inv2 eps c1 I) as (I' & _).
+  destruct (drain_resync_A eps c1 A I HQ HC) as [HQ' HC'].
+  split; [exact I'|]. split; [|exact HC'].
+  intros i t Ht. destruct (HQ' i t Ht) as [Hl|[Hr|Ha]]; [left; exact Hl|inversion Hr|right; exact Ha].
+Qed.
+
+(* ----- the walk that stops at the first pre-bind failure (seed C01-r7-1: `break` for `continue`
+   in executePreBinds): the contexts behind the failure are neither sent to the binder nor
+   resynced.  It differs from [bind_batch] in the resync queue only ----- *)
+Fixpoint walk_break (xs : list (bctx * opres)) : list (bctx * opres) :=
+  match xs with
+  | [] => []
+  | x :: r => if (bfault x =? 2) || (bfault x =? 3) then [x] else x :: walk_break r
+  end.
+Definition bind_batch_break (c : cache) (l : list bctx) : cache * list opres :=
+  let cr := bfold (fun _ => true) l (c, []) in
+  let acc := walk_break (List.filter (fun xr : bctx * opres => match snd xr with RDone => true | _ => false end) (zip l (snd cr))) in
+  (with_errq (fst cr)
+     (fold_left (fun q xr => enq q (bkey xr))
+        (List.filter (fun xr => (bfault xr =? 2) || (bfault xr =? 3)) acc ++
+         List.filter (fun xr => (bfault xr =? 0) || (bfault xr =? 4)) acc) (c_errq (fst cr))), snd cr).
+
+(* the statement of the seventh round (no clause on the queue) does not tell the two apart *)
+Lemma bind_batch_break_same_but_errq c l :
+  same_but_errq (fst (bind_batch_break c l)) (fst (bind_batch eps c l)) /\
+  snd (bind_batch_break c l) = snd (bind_batch eps c l).
+Proof. rewrite bind_batch_unfold. unfold bind_batch_break. cbv zeta. cbn [fst snd]. repeat split; reflexivity. Qed.
+
+(* ----- law 105 (third audit, E23) ----- *)
+Lemma law_failed_binds_queued_spec c keys :
+  law_failed_binds_queued c keys = true <-> forall k, k ∈ keys -> k ∈ c_errq c.
+Proof.
+  unfold law_failed_binds_queued. rewrite forallb_forall. split.
+  - intros H k Hk. apply elem_of_list_In in Hk. specialize (H k Hk). apply bool_decide_eq_true in H. exact H.
+  - intros H k Hk. apply bool_decide_eq_true. apply H. apply elem_of_list_In. exact Hk.
+Qed.
+
+(* the keys the harness hands to law 105: the accepted contexts whose API side was scripted to fail *)
+Definition failed_keys (l : list bctx) (rs : list opres) : list (positive * positive) :=
+  map bkey (List.filter (fun xr : bctx * opres => match snd xr with RDone => negb (bfault xr =? 1) | _ => false end) (zip l rs)).
+
+(* the model's batch satisfies law 105, and queues nothing else: the law's keys and the old
+   queue are exactly the members of the new queue *)
+Theorem bind_batch_law105 l c : faults_ok l ->
+  let b := bind_batch eps c l in
+  law_failed_binds_queued (fst b) (failed_keys l (snd b)) = true /\
+  forall k, k ∈ c_errq (fst b) <-> k ∈ c_errq c \/ k ∈ failed_keys l (snd b).
+Proof.
+  intros Hf b. destruct (bind_batch_errq l c Hf) as (_ & _ & _ & _ & E). fold b in E.
+  assert (K : forall k, k ∈ failed_keys l (snd b) <->
+                exists xr, xr ∈ zip l (snd b) /\ snd xr = RDone /\ bfault xr <> 1 /\ bkey xr = k).
+  { intros k. unfold failed_keys. rewrite elem_of_list_fmap. split.
+    - intros (xr & -> & Hin). apply elem_of_list_In, filter_In in Hin. destruct Hin as [Hin Hb].
+      exists xr. split; [apply elem_of_list_In; exact Hin|]. destruct (snd xr); try discriminate.
+      split; [reflexivity|]. split; [|reflexivity]. apply negb_true_iff, Z.eqb_neq in Hb. exact Hb.
+    - intros (xr & Hin & Hd & Hne & Hk). exists xr. split; [auto|]. apply elem_of_list_In, filter_In.
+      split; [apply elem_of_list_In; exact Hin|]. rewrite Hd. apply negb_true_iff, Z.eqb_neq. exact Hne. }
+  split.
+  - apply law_failed_binds_queued_spec. intros k Hk. apply E. right. apply K. exact Hk.
+  - intros k. rewrite E, K. reflexivity.
 Qed.
 
 End Batch.
